@@ -111,8 +111,80 @@ func execEvm(w *World, steps []Step) (*evmExec, error) {
 	return x, nil
 }
 
+// runTopXCall executes the one-step behaviour "a transaction to a Quai address in another zone" (spec action
+// TopXCall): evm.Call(origin, foreign address, value 1).  S = 1: the destination zone may receive ETXs.
+func runTopXCall(w *World, bi int, steps []Step, wantEvents bool) (fs []Finding, events []map[string]interface{}, nrev int, err error) {
+	u := w.U
+	st := steps[0]
+	if len(steps) != 1 || st.A < 1 || st.A > u.NAddr {
+		return nil, nil, 0, fmt.Errorf("xcall is a whole transaction")
+	}
+	s := w.NewState()
+	r := newResolver(u)
+	s.Finalize(true)
+	s.Prepare(thash, 0)
+	s.ConfigureAccessListChecks(false)
+	batch := w.Raw.NewBatch()
+	batch.SetPending(true)
+	evm := vm.NewEVM(blockCtx(), vm.TxContext{Origin: addrOf(st.A), GasPrice: big.NewInt(0), Hash: thash}, s, chainCfg, vm.Config{}, batch)
+	sl := &sideLists{evm: evm, batch: batch, raw: w.Raw, hashO: map[common.Hash]int{}}
+	pre := project(s, r, sl)
+	// the recipient as this zone's node decodes it from the transaction (an external address here)
+	to := common.BytesToAddress(extAddrClosed.Bytes(), loc)
+	if st.S == 1 {
+		to = common.BytesToAddress(extAddr.Bytes(), loc)
+	}
+	var callErr error
+	var panicked interface{}
+	func() {
+		defer func() { panicked = recover() }()
+		_, _, _, callErr = evm.Call(vm.AccountRef(addrOf(st.A)), to, nil, uint64(1)<<40, big.NewInt(st.V))
+	}()
+	post := project(s, r, sl)
+	mkf := func(kind, class, cause string, accts []int, exp, got interface{}, detail string) Finding {
+		return Finding{Level: "evm", Kind: kind, At: fmt.Sprintf("xcall(%d)", st.S), Diff: class, Cause: cause, Accounts: accts, Universe: u.Name,
+			Behaviour: bi, StepIdx: 0, Expected: exp, Got: got, Detail: detail, Steps: steps}
+	}
+	if panicked != nil {
+		return []Finding{mkf("panic", "panic", "", nil, nil, fmt.Sprint(panicked), "evm.Call panicked")}, nil, 0, nil
+	}
+	got := post.flat(u)
+	seen := map[string]bool{}
+	if st.S != 1 {
+		nrev++
+		classes, accts := diffProj(pre, post)
+		for _, c := range classes {
+			seen[c] = true
+			fs = append(fs, mkf("revert-not-restored", c, "failed-cross-zone-call", accts[c], pre.brief(c), post.brief(c),
+				"state after the failed transaction to a zone that cannot receive ETXs differs from the state before it"))
+		}
+	}
+	if (callErr != nil) != (st.S != 1) {
+		fs = append(fs, mkf("spec-mismatch", "control-flow", "", nil, st.S != 1, fmt.Sprint(callErr), "outcome of the top-level call"))
+	}
+	if st.Vis != nil {
+		for _, c := range diffFlat(u, st.Vis, got, true) {
+			if !seen[c] {
+				fs = append(fs, mkf("spec-mismatch", c, "", nil, st.Vis, got, "observed abstract state differs from the specified one"))
+			}
+		}
+	}
+	if wantEvents {
+		res := "ok"
+		if callErr != nil {
+			res = "fail"
+		}
+		events = append(events, map[string]interface{}{"op": st.Op, "a": st.A, "s": st.S, "v": st.V, "id": st.ID, "res": []interface{}{res},
+			"vis": got, "dg": post.digestNoRoot(), "lvl": "e", "pre": pre.digestNoRoot()})
+	}
+	return
+}
+
 // runEvm executes one EVM-level behaviour.  Findings of the first deviating step, trace events.
 func runEvm(w *World, bi int, steps []Step, wantEvents bool) (fs []Finding, events []map[string]interface{}, nrev int, err error) {
+	if len(steps) > 0 && steps[0].Op == "xcall" {
+		return runTopXCall(w, bi, steps, wantEvents)
+	}
 	u := w.U
 	nspec := len(steps)
 	steps = completeFrames(steps)
